@@ -29,6 +29,12 @@ def to_code_data(code: CodeType) -> CodeData:
     else:
         posonlyargcount = 0
 
+    # The number of local variables is not stored, since it is the number of varnames
+    if code.co_nlocals != len(code.co_varnames):
+        raise ValueError(
+            f"Expected {len(code.co_varnames)} local variables, not {code.co_nlocals}"
+        )
+
     line_mapping = to_line_mapping(code)
 
     line_mapping.modify_line_offsets(code.co_firstlineno)
